@@ -724,3 +724,7 @@ mod tests {
         assert_eq!(metrics.total_requests, 2);
     }
 }
+
+#[cfg(kani)]
+#[path = "/verif/kani/placement_types_proofs.rs"]
+mod verif_proofs;
